@@ -285,3 +285,47 @@ func VerifC19MalformedKey() {
 	}
 	nd.Reach("end")
 }
+
+// VerifC19KeyPairs: two requests of one batch are about the same item iff their keys are equal: on a table with a
+// sort key, a batch of two writes (put / delete) whose keys are any byte strings of 1..2 bytes - with whatever
+// separators an implementation may use inside - leaves what the two requests leave one by one.
+func VerifC19KeyPairs() {
+	mk := func() *Client {
+		c := NewClient()
+		nd.Assert(AddTable(vCtx, c, vTbl, "p", "s") == nil, "setup-addtable")
+		return c
+	}
+	c, twin := mk(), mk()
+	k1 := vItem{"p": vS(vKeyStr("k1.p", 2)), "s": vS(vKeyStr("k1.s", 2))}
+	k2 := vItem{"p": vS(vKeyStr("k2.p", 2)), "s": vS(vKeyStr("k2.s", 2))}
+	for _, cl := range []*Client{c, twin} {
+		for _, k := range []vItem{k1, k2} {
+			if nd.Choice("stored", 2) == 1 {
+				_, err := cl.PutItem(vCtx, &dynamodb.PutItemInput{TableName: aws.String(vTbl), Item: vItem{"p": k["p"], "s": k["s"], "v": vS("old")}})
+				nd.Assert(err == nil, "setup-put")
+			}
+			break
+		}
+	}
+	reqs := []types.WriteRequest{}
+	for i, k := range []vItem{k1, k2} {
+		if nd.Choice("kind", 2) == 0 {
+			reqs = append(reqs, types.WriteRequest{PutRequest: &types.PutRequest{Item: vItem{"p": k["p"], "s": k["s"], "v": vS("new" + string(rune('0'+i)))}}})
+		} else {
+			reqs = append(reqs, types.WriteRequest{DeleteRequest: &types.DeleteRequest{Key: k}})
+		}
+	}
+	_, err := c.BatchWriteItem(vCtx, &dynamodb.BatchWriteItemInput{RequestItems: map[string][]types.WriteRequest{vTbl: reqs}})
+	nd.Assert(err == nil, "C19-pairs-batch-noerr")
+	for _, r := range reqs {
+		if r.PutRequest != nil {
+			_, e := twin.PutItem(vCtx, &dynamodb.PutItemInput{TableName: aws.String(vTbl), Item: r.PutRequest.Item})
+			nd.Assert(e == nil, "C19-pairs-twin-put")
+		} else {
+			_, e := twin.DeleteItem(vCtx, &dynamodb.DeleteItemInput{TableName: aws.String(vTbl), Key: r.DeleteRequest.Key})
+			nd.Assert(e == nil, "C19-pairs-twin-delete")
+		}
+	}
+	nd.Assert(vSameItems(vScanTable(c, vTbl), vScanTable(twin, vTbl)), "C19-pairs-batch-equals-item-by-item")
+	nd.Reach("end")
+}
